@@ -116,3 +116,9 @@ def presentations(values, rng):
     ro = base.copy()
     ro.flags.writeable = False
     yield "readonly", ro
+    rev = numpy.full(n + 8, 0xEFEFEFEF, dtype=U32)
+    rev[4:4 + n] = base[::-1]
+    yield "reversed", rev[4:4 + n][::-1]
+
+
+SENTINELS = (0xABABABAB, 0xCDCDCDCD, 0xEFEFEFEF)
